@@ -28,6 +28,15 @@ def is_wr(name):
     return name == WR or (name.endswith(">::write_response") and " as microscpi::response::Response" in name)
 
 
+def w_method(name):
+    """writer method name of a call path: the trait method or its resolved impl (`<T as ..::Write>::m`), else None"""
+    if name.startswith(W):
+        return name[len(W):]
+    if " as microscpi::response::Write>::" in name:
+        return name.split(">::")[-1]
+    return None
+
+
 def from_self(t):
     """t is `self` seen through borrowing views only (as_str, as_slice, as_ref, deref, as_bytes ...)."""
     t = strip_sites(t)
@@ -433,7 +442,20 @@ def rule_X(ck, lib):
 
 
 def rule_W(ck, lib, tag=""):
-    allowed_fn = lambda d, b: (b.get("trait") in ("microscpi::response::Response",)) or d in ("microscpi::interface::Interface::execute",) or d.startswith("microscpi::response::")
+    allowed_fn = lambda d, b: (b.get("trait") in ("microscpi::response::Response", "microscpi::response::Write")) or d in ("microscpi::interface::Interface::execute",) or d.startswith("microscpi::response::")
+    base_allowed = allowed_fn
+    helpers = ctx.inline_helpers(lib)
+
+    def allowed_fn(d, b, depth=0):
+        """... and a private helper all of whose callers may write (its body is evaluated in place at their call sites)"""
+        if base_allowed(d, b):
+            return True
+        root = hir.base_path(d.split("::{closure")[0])
+        if root not in helpers or depth > 4:
+            return False
+        callers = [bb for bb in lib.facts["bodies"] if any(hir.base_path(hir.callee(y) or "") == root for y in hir.walk(bb["value"]))]
+        return bool(callers) and all(allowed_fn(bb["def"], bb, depth + 1) for bb in callers if hir.base_path(bb["def"].split("::{closure")[0]) != root)
+
     n = 0
     for b in lib.facts["bodies"]:
         for xn in hir.walk(b["value"]):
@@ -461,6 +483,36 @@ def rule_W(ck, lib, tag=""):
     # shipped Write impls: every method either appends exactly its argument or fails
     impls = [b for b in lib.facts["bodies"] if b.get("trait") == "microscpi::response::Write"]
     ck.floor("C04-W", tag + "Write impl methods", len(impls), 10 if tag else 5)
+    by_impl = {(b["self_ty"], b["name"]): b for b in impls}
+
+    def appended(b, x, ps, depth=0):
+        """(data term, append call or None, delegate call or None) of one success path; a method that hands its argument to
+        a sibling method of the same writer (`self.write_bytes(s.as_bytes())`) appends what the sibling appends."""
+        calls = x.calls()
+        apps = [c for c in calls if c[1].split("::")[-1] in ("extend_from_slice", "push", "write_fmt", "push_str") and w_method(c[1]) is None]
+        dels = [c for c in calls if w_method(c[1]) in ("write_bytes", "write_str", "write_char") and c[2] and c[2][0] == ("param", b["params"][0].get("name"))]
+        if len(apps) == 1 and not dels:
+            return apps[0][2][1], apps[0], None
+        if not apps and len(dels) == 1 and depth < 3:
+            m2 = w_method(dels[0][1])
+            b2 = by_impl.get((b["self_ty"], m2))
+            if b2 is None or b2 is b:
+                return None, None, dels[0]
+            ex2, ps2 = ctx.summarize(lib, b2["def"], ck)
+            arg2 = ("param", b2["params"][1].get("name"))
+            shapes = set()
+            for x2 in [y for y in ex2 if success(y)]:
+                d2, a2, _ = appended(b2, x2, ps2, depth + 1)
+                if d2 is None:
+                    return None, None, dels[0]
+                shapes.add("arg" if d2 == arg2 else "bytes" if (d2[0] == "call" and d2[1].endswith("::as_bytes") and d2[2] == (arg2,)) else "u8" if d2 == ("cast", arg2, "u8") else "?")
+            if len(shapes) != 1 or "?" in shapes:
+                return None, None, dels[0]
+            a = dels[0][2][1]
+            sh = shapes.pop()
+            return (a if sh == "arg" else ("call", "core::str::as_bytes", (a,), None) if sh == "bytes" else ("cast", a, "u8")), None, dels[0]
+        return None, (apps[0] if apps else None), (dels[0] if dels else None)
+
     for b in impls:
         ex, ps = ctx.summarize(lib, b["def"], ck)
         name = b["name"]
@@ -474,13 +526,12 @@ def rule_W(ck, lib, tag=""):
         good = True
         why = ""
         for x in oks:
-            calls = x.calls()
-            apps = [c for c in calls if c[1].split("::")[-1] in ("extend_from_slice", "push", "write_fmt", "push_str")]
-            if len(apps) != 1:
+            data, app, dele = appended(b, x, ps)
+            if data is None:
                 good = False
-                why = "success path appends %d times" % len(apps)
+                why = "success path does not append exactly once (directly or through one sibling method of the same writer)"
                 continue
-            data = apps[0][2][1]
+            data = strip_sites(data)
             if name == "write_bytes":
                 okd = data == arg
             elif name == "write_str":
@@ -493,11 +544,16 @@ def rule_W(ck, lib, tag=""):
                 good = False
                 why = "appends %s instead of its argument" % show_term(data)
             # fallible appends must have their failure mapped to Err on the other path
-            if apps[0][1].startswith("heapless::") or apps[0][1].startswith("core::fmt::"):
-                t = ("call",) + apps[0][1:]
+            if app is not None and (app[1].startswith("heapless::") or app[1].startswith("core::fmt::")):
+                t = ("call",) + app[1:]
                 if ps.decided(St(x.conds), t, OK) is not True:
                     good = False
-                    why = "result of %s is not checked" % apps[0][1].split("::")[-1]
+                    why = "result of %s is not checked" % app[1].split("::")[-1]
+            if dele is not None:
+                t = ("call",) + dele[1:]
+                if ps.decided(St(x.conds), t, OK) is not True and strip_sites(x.value) != strip_sites(t):
+                    good = False
+                    why = "result of the sibling method %s is neither checked nor returned" % dele[1].split("::")[-1]
         ck.judge(good and oks, "C04-W", key, "%s::%s appends exactly its argument or reports failure" % (st, name), "%s::%s: %s" % (st, name, why or "no success path"))
 
 
